@@ -33,7 +33,7 @@ var OrdinaryWords = []string{
 	"log", "mode", "key", "cert", "token", "secret", "region", "zone", "bucket", "prefix", "suffix",
 	"enable", "disable", "interval", "delay", "buffer", "queue", "worker", "pool", "shard", "replica",
 	"primary", "backup", "metric", "trace", "span", "batch", "flush", "window", "burst", "quota",
-	"up", "to", "on", "db", "fs", "io", "tag", "env", "var", "val",
+	"up", "to", "on", "db", "fs", "io", "tag", "env", "var", "val", "is", "as", "us", "go", "in",
 }
 
 // PluralInitialisms are plural forms of initialisms as Go code writes them
